@@ -119,7 +119,7 @@ def _perturbed(v):
     return v
 
 
-def eval_formula(formula, cells=None, addr='Z9', overrides=None, sheets=None, decoy=True):
+def eval_formula(formula, cells=None, addr='Z9', overrides=None, sheets=None, decoy=True, pre_overrides=None, split=False):
     """The value of `formula` written at `addr` of the first sheet.  The workbook also gets a DECOY sheet in front of it: the same cell
     texts (formulas included) at the same addresses over different constants.  Whatever the translation remembers about a formula text, an
     area text or an address must not leak from one sheet to the other."""
@@ -131,14 +131,33 @@ def eval_formula(formula, cells=None, addr='Z9', overrides=None, sheets=None, de
         sh[0][1][addr] = formula
     shift = 0
     if decoy:
-        sh = [('Decoy 0', {a: _perturbed(v) for a, v in sh[0][1].items()})] + list(sh)
-        shift = 1
+        import zlib as _z
+        front = [('Decoy 0', {a: _perturbed(v) for a, v in sh[0][1].items()})]
+        if _z.crc32(formula.encode('utf8')) % 5 == 0:
+            # now and then ten sheets in front: the formula's sheet then has a two-digit number (uids _10_<column>_<row>)
+            front += [('Filler %d' % i, {'A1': i}) for i in range(1, 10)]
+        sh = front + list(sh)
+        shift = len(front)
+
+    import zlib
+    c0, r0 = a1(addr)
+    # every other formula (by a checksum of its text) is translated from the formula cell as ENTRY POINT instead of as a whole file
+    entry = Cell(shift, c0, r0) if zlib.crc32(formula.encode('utf8')) % 2 else None
 
     def go():
-        cl = build(sh)
+        cl = build(sh, entry)
         e = executor(cl)
-        if overrides:
-            e.set_cells([Cell(o.title + shift if isinstance(o.title, int) else o.title, o.column, o.row, o.value) for o in overrides] if shift else overrides)
+        remap = lambda os_: [Cell(o.title + shift if isinstance(o.title, int) else o.title, o.column, o.row, o.value) for o in os_] if shift else os_
+        if pre_overrides:
+            # an earlier state of the same executor: other values in the same cells, read once, then replaced by `overrides`
+            e.set_cells(remap(pre_overrides))
+            c_, r_ = a1(addr)
+            outcome(lambda: e.get_cell(Cell(shift, c_, r_)).value)
+        if overrides and split:
+            for o_ in remap(overrides):          # one set_cells call per cell, nothing read in between
+                e.set_cells([o_])
+        elif overrides:
+            e.set_cells(remap(overrides))
         c, r = a1(addr)
         return e.get_cell(Cell(shift, c, r)).value
     return outcome(go)
